@@ -92,7 +92,7 @@ def main():
         shutil.rmtree(wt, ignore_errors=True)
         # restore Gen + build products for the real tree
         subprocess.run([sys.executable, "-m", "vf.extract.gen"], cwd=VERIF, capture_output=True)
-        subprocess.run([PY, "-m", "vf.extract.tables"], cwd=VERIF, capture_output=True)
+        subprocess.run([PY, "-m", "vf.extract.tables"], cwd=VERIF, capture_output=True, env={**os.environ, "PYTHONPATH": VERIF})
     print(json.dumps(res, indent=1))
     return 0
 
